@@ -425,6 +425,36 @@ PROPS['C18'] = {
 }
 
 
+PROPS['C06'] = {
+    'theorems': ['RQ.Par.C06_apply_phase', 'RQ.Par.C06_queues_sorted', 'RQ.Par.C06_frame', 'RQ.Par.C06_local', 'RQ.Par.C06_commute', 'RQ.Par.C06_disjoint'],
+    'verdict': 'C06',
+    'jobs': [{'quick': ['pushsched', 'seed={seed}', 'n=900', 'perws=3'], 'thorough': ['pushsched', 'seed={seed}', 'n=30000', 'perws=6']}] +
+            push_jobs(['threads=2,3,4,8,16', 'inv=2'], ['threads=2,3,4,8,16', 'inv=3'], nq=2500, nt=60000),
+    'nontrivial': lambda l: l.split('|=>|')[-1].count('2f') > 0,
+    'histogram': push_hist,
+    'rule': "sched engine: generated workspace (up to 5 patches over up to 4+ files so that several workers have work, 45% with "
+            "a failing patch), one invocation with --threads in {2,3,4,8,16}; a probe run under the baton hook (one worker at a "
+            "time, free order) records every scheduling point each worker passes (before reading the shared index, before "
+            "fetch_min, before every file-system write); then the workspace is run again under 3 forced schedules of exactly "
+            "those steps: a uniform shuffle, one-worker-after-the-other, long runs with random swaps (others run ahead), "
+            "permuted within the apply and the save phase. Plus the push engine with real free-running threads (2-16). "
+            "The result must equal the single-threaded specification whenever all patches of the range parse (the "
+            "property's premise). distinct = hash of input incl. schedule length; non-trivial = the tree has a sub-directory",
+    'explanation': "Theorems: (1) C06_apply_phase - for every schedule (list of worker ids) of the two-micro-step transition system "
+                   "of apply_worker instantiated with apply_one_file_patch, once all workers are done the shared index is the "
+                   "first failing patch and every worker has applied a prefix of its (index-sorted, C06_queues_sorted) queue "
+                   "containing all entries up to it; (2) workers share no file name (C06_disjoint, from C07), a file patch reads "
+                   "and writes only entries of its own names (C06_frame, C06_local), so file patches of different workers "
+                   "commute (C06_commute) and every interleaving yields the tree of the series order, which C05_apply_refines "
+                   "identifies with the single-threaded driver. The save phase (independent writes to distinct paths) is not "
+                   "a theorem. Implementation: forced random schedules through the baton hook + free-running threads; tree, "
+                   ".pc, rejects, exit status must equal pushSpec.",
+    'trusted': PUSH_TRUSTED + ["Acquire/AcqRel atomics on the single shared index modelled as sequentially consistent steps; rayon as 'each queue is processed by one worker, workers interleave arbitrarily at the hook points'; kernel atomicity of individual file operations",
+                               "the baton hook serialises hooked threads: sound here because the only cross-thread interactions are the atomic and the file system, both bracketed by hooks"],
+    'assumptions': ["save phase not covered by a theorem (level_note); parallel drivers parse the whole range up front, so a range with an unparseable later patch legitimately differs from the single-threaded run (excluded by the property)"],
+}
+
+
 def field(line, name):
     m = re.search(r'(?:^| )' + re.escape(name) + r'=(\S*)', line)
     return m.group(1) if m else None
